@@ -55,12 +55,24 @@ def split_groups(psids, rng, chain=1, with_all=False):
     return groups
 
 
-def tbs(name=None, app=None, issue=None, start=0, duration=("years", 10)):
+def psid_ssp(p, rng):
+    """one PsidSsp entry: the bare ITS-AID, or the ITS-AID with Service Specific Permissions (bitmapSsp / opaque) -- the
+    form PKI-issued CAM / DENM / VAM tickets have.  Authorisation is by ITS-AID: the ssp component never matters here"""
+    if rng is None or rng.random() < 0.4:
+        return {"psid": p}
+    n = rng.choice([1, 3, 4])
+    if rng.random() < 0.7:
+        return {"psid": p, "ssp": ("bitmapSsp", bytes([1] + [rng.randrange(256) for _ in range(n - 1)]))}
+    return {"psid": p, "ssp": ("opaque", bytes(rng.randrange(256) for _ in range(n)))}
+
+
+def tbs(name=None, app=None, issue=None, start=0, duration=("years", 10), ssp=None):
+    """`ssp`: a random.Random -> each appPermissions entry may carry an ssp component (see psid_ssp)"""
     t = {"id": ("name", name) if name is not None else ("none", None), "cracaId": b"\x00\x00\x00", "crlSeries": 0,
          "validityPeriod": {"start": start, "duration": duration},
          "verifyKeyIndicator": ("verificationKey", ("ecdsaNistP256", ("fill", None)))}
     if app is not None:
-        t["appPermissions"] = [{"psid": p} for p in app]
+        t["appPermissions"] = [p if isinstance(p, dict) else psid_ssp(p, ssp) for p in app]     # dict: explicit PsidSsp entry
     if issue is not None:
         t["certIssuePermissions"] = copy.deepcopy(issue)
     return t
@@ -124,6 +136,7 @@ class PKI:
         return OwnCertificate.initialize_certificate(self.backend, tbs(name, app=app, issue=issue or [perm_all(2)], **kw))
 
     def issue(self, issuer, name=None, app=None, issue=None, **kw):
+        # kw: start, duration, ssp (see tbs)
         return OwnCertificate.initialize_certificate(self.backend, tbs(name, app=app, issue=issue, **kw), issuer)
 
     def raw(self, signer_key_id, cert_dict, issuer_obj=None, own_key_id=None):
@@ -334,6 +347,42 @@ def chain_ok(cert_dict, roots: dict, cas: dict, depth=0):
     return chain_ok(i, roots, cas, depth + 1)
 
 
+UNIT_S = {"seconds": 1, "minutes": 60, "hours": 3600, "sixtyHours": 216000, "years": YEAR_S}
+
+
+def validity_around(rng, now_s, span_s=120):
+    """(start, duration) of a validity period that contains [now_s, now_s + span_s], over the IEEE 1609.2 Duration units
+    whose Uint16 range can hold it, placed so that `now_s` falls near the START, in the middle or near the END of the
+    period (the remaining time after the span: seconds .. hours .. half the period) -- every unit has its own
+    microsecond factor in the receiver's validity test, and a wrong factor shows only near the end"""
+    unit = rng.choice(["seconds", "minutes", "hours", "sixtyHours", "years"])
+    per = UNIT_S[unit]
+    lo = max(1, -(-(span_s + 120) // per))
+    n = rng.choice([lo, lo + 1, 2 * lo + 1, 3, 100, 1000, 65535]) if unit != "years" else rng.choice([1, 1, 2, 3, 10])
+    n = max(lo, min(n, 65535 if unit != "years" else 30))
+    total = n * per
+    slack = total - span_s
+    pos = rng.random()
+    if pos < 0.25:
+        before = rng.choice([0, 1, 30, 1000])                       # just started
+    elif pos < 0.75:
+        after = rng.choice([1, 30, 600, 3600, 2 * 3600, 5 * 3600, 12 * 3600, 40 * 3600])   # about to end
+        before = slack - after
+    else:
+        before = slack // 2
+    before = max(0, min(before, slack, now_s))
+    return now_s - before, (unit, n)
+
+
+def psid_ssp_json(entries):
+    """appPermissions entries as JSON-able lists [psid] / [psid, choice, hex] (replay files)"""
+    return [[e["psid"]] if "ssp" not in e else [e["psid"], e["ssp"][0], bytes(e["ssp"][1]).hex()] for e in entries]
+
+
+def psid_ssp_from_json(rows):
+    return [{"psid": r[0]} if len(r) == 1 else {"psid": r[0], "ssp": (r[1], bytes.fromhex(r[2]))} for r in rows]
+
+
 def validity_us(cert_dict):
     vp = cert_dict["toBeSigned"]["validityPeriod"]
     s = vp["start"] * 10**6
@@ -370,6 +419,18 @@ def decode_signed(data: bytes):
         return sd, tbs_bytes
     except Exception:
         return None
+
+
+def envelope_choice(data: bytes):
+    """content CHOICE of an Ieee1609Dot2Data envelope that decodes, else None"""
+    try:
+        return CODER.decode_etsi_ts_103097_data_signed(data)["content"][0]
+    except Exception:  # noqa: BLE001
+        return None
+
+
+def make_envelope(choice, content) -> bytes:
+    return CODER.encode_etsi_ts_103097_data_signed({"protocolVersion": 3, "content": (choice, content)})
 
 
 def abs_msg(A: "Abs", sd, tbs_bytes) -> str:
@@ -561,8 +622,13 @@ class RouterStation(RealStation):
         self.lat, self.lon = lat, lon
         orig_common = self.router.process_common_header
 
+        self.upper_fault = None      # fault injection: exception the processing AFTER the gate raises for the next packet
+
         def probe_common(packet, basic_header):
             self.gate.append(bytes(packet))
+            if self.upper_fault is not None:
+                exc, self.upper_fault = self.upper_fault, None
+                raise exc
             return orig_common(packet, basic_header)
         self.router.process_common_header = probe_common
         orig_verify = self.vs.verify
@@ -605,11 +671,14 @@ class RouterStation(RealStation):
         self.router.gn_data_request(req)
         return self.ll.take()
 
-    def receive(self, frame: bytes):
-        """hand a frame to the real Router; returns (outcome, gate payloads, indications, confirm or None)"""
+    def receive(self, frame: bytes, fault=None):
+        """hand a frame to the real Router; returns (outcome, gate payloads, indications, confirm or None, exception).
+        `fault`: an exception instance the GeoNetworking processing behind the gate raises for THIS frame if it gets
+        that far (a failing upper layer / decoder; the receive path must not keep anything of the packet)"""
         self.gate.clear()
         self.inds.clear()
         self.confirms.clear()
+        self.upper_fault = fault
         exc = None
         try:
             # gn_data_indicate only wraps process_basic_header in a catch-all (C04's repair); the unwrapped entry
@@ -617,6 +686,7 @@ class RouterStation(RealStation):
             self.router.process_basic_header(frame)
         except Exception as e:  # noqa: BLE001 - every exception type is an outcome
             exc = e
+        self.upper_fault = None
         gate = list(self.gate)
         conf = self.confirms[-1] if self.confirms else None
         if gate:
@@ -642,7 +712,10 @@ def frame_tokens(A: "Abs", frame: bytes):
     if nh == 2:
         dec = decode_signed(frame[4:])
         if dec is None:
-            return "P"
+            # an envelope that decodes but whose content choice is not signedData (unsecuredData / encryptedData /
+            # signedCertificateRequest) carries no signature at all: token `E` (model: never delivered)
+            ch = envelope_choice(frame[4:])
+            return "E" if ch is not None and ch != "signedData" else "P"
         try:
             return "S " + abs_msg(A, *dec)
         except Exception:  # noqa: BLE001 - e.g. a signer certificate that decodes but does not re-encode
